@@ -50,6 +50,9 @@ type Spec struct {
 	// InstrPkgs: further packages (import paths) whose synchronisation operations are scheduling
 	// points of forced-schedule replays, like those of Package (e.g. queue for a harness in http).
 	InstrPkgs []string `json:"instr_pkgs"`
+	// ForceSelect: the instrumented replay build can force the case a select takes (a select with
+	// several ready cases is a recorded scheduler decision of the symbolic run, natively it is random).
+	ForceSelect bool `json:"force_select"`
 	// NativeChecks: names of native tests in the harness directory that every check run executes
 	// (preconditions of the encoding; a failure makes the run INCONCLUSIVE).
 	NativeChecks []string `json:"native_checks"`
@@ -246,6 +249,7 @@ func buildOverlay(spec *Spec, forTest bool) (map[string][]byte, error) {
 		if instrMore {
 			for i := range spec.InstrPkgs {
 				fmt.Fprintf(&sb, "\tverifinstr%d.VerifSPHook, verifinstr%d.VerifSpawnHook, verifinstr%d.VerifEnterHook = verifSP, verifSpawn, verifEnter\n", i, i, i)
+				fmt.Fprintf(&sb, "\tverifinstr%d.VerifSelHook = verifSel\n", i)
 			}
 		}
 		sb.WriteString("\tentries := map[string]func(){\n")
@@ -267,6 +271,7 @@ func buildOverlay(spec *Spec, forTest bool) (map[string][]byte, error) {
 		ov[filepath.Join(dst, "zz_verif_zmain_test.go")] = []byte(sb.String())
 		// instrumented copies of the package's files (scheduling points for forced-schedule replays)
 		if spec.Synctest && curProgram != nil && os.Getenv("VERIF_NO_INSTRUMENT") == "" {
+			curProgram.ForceSelect = spec.ForceSelect
 			files, err := curProgram.InstrumentPackage(spec.Package, map[string]bool{"zz_verif_api.go": true})
 			if err == nil {
 				for name, content := range files {
@@ -310,6 +315,7 @@ type ReplayFile struct {
 	Pos      string         `json:"pos,omitempty"`
 	Trace    []string       `json:"trace,omitempty"`
 	Sched    []int          `json:"sched,omitempty"`
+	Sel      [][2]int       `json:"sel,omitempty"` // forced select choices: (position in sched, case); see spec "force_select"
 }
 
 // replay binary: the package's test binary with the harness overlaid, built once per run.
@@ -663,8 +669,11 @@ func checkSpec(hdir, prop, tier, only string, verbose bool, seed int64, acc *acc
 		for _, id := range sortedKeys(r.Findings) {
 			f := r.Findings[id]
 			rf := &ReplayFile{Harness: hdir, Property: prop, Entry: e.Name, Expect: "finding " + id, Values: f.Values, Pos: f.Pos, Sched: f.Sched}
+			if spec.ForceSelect {
+				rf.Sel = f.Sel
+			}
 			if e.FreeSchedule {
-				rf.Sched = nil
+				rf.Sched, rf.Sel = nil, nil
 			}
 			path := writeReplay(prop, rf)
 			ok := e.NoReplay
@@ -700,8 +709,11 @@ func checkSpec(hdir, prop, tier, only string, verbose bool, seed int64, acc *acc
 			}
 			tried[v.ID]++
 			rf := &ReplayFile{Harness: hdir, Property: prop, Entry: e.Name, Expect: "violated " + v.ID, Values: v.Values, Detail: v.Detail, Pos: v.Pos, Trace: v.Trace, Sched: v.Sched}
+			if spec.ForceSelect {
+				rf.Sel = v.Sel
+			}
 			if e.FreeSchedule {
-				rf.Sched = nil
+				rf.Sched, rf.Sel = nil, nil
 			}
 			path := writeReplay(prop, rf)
 			os.WriteFile(strings.TrimSuffix(path, ".json")+".smt2", []byte(v.Script), 0o644)
